@@ -120,13 +120,32 @@ def accessor(mod, target):
     return [("owner class", lambda: mod.Cls.CONST, mod.Cls)]
 
 
+RESULT_MODE = ["plain"]  # what replacements return in the current cell: a tuple, a ConstFuture, a lazy Future
+_RESULTS = {}
+
+
+def result_for(n):
+    """The object a replacement hands back (one object per cell and arity, so that conventions can be compared by
+    identity): under "constfuture" / "lazyfuture" the RESULT ITSELF is a future object, which every convention has to
+    pass on untouched - and uncomputed."""
+    mode = RESULT_MODE[0]
+    if mode == "plain":
+        return ("replaced", n)
+    key = (mode, n)
+    if key not in _RESULTS:
+        from asynq import ConstFuture, Future
+
+        _RESULTS[key] = ConstFuture(("inner", n)) if mode == "constfuture" else Future(lambda: ("inner", n))
+    return _RESULTS[key]
+
+
 class Recorder(object):
     def __init__(self):
         self.calls = []
 
     def method(self, *args, **kwargs):
         self.calls.append((args, tuple(sorted(kwargs.items()))))
-        return ("replaced", len(args))
+        return result_for(len(args))
 
 
 class CallableObj(object):
@@ -135,7 +154,7 @@ class CallableObj(object):
 
     def __call__(self, *args, **kwargs):
         self.rec.calls.append((args, tuple(sorted(kwargs.items()))))
-        return ("replaced", len(args))
+        return result_for(len(args))
 
 
 def make_replacement(kind, rec):
@@ -147,7 +166,7 @@ def make_replacement(kind, rec):
     if kind == "function":
         def new(*args, **kwargs):
             rec.calls.append((args, tuple(sorted(kwargs.items()))))
-            return ("replaced", len(args))
+            return result_for(len(args))
 
         return {"new": new}, None
     if kind == "bound":
@@ -165,7 +184,7 @@ def make_replacement(kind, rec):
         def factory():
             def new(*args, **kwargs):
                 rec.calls.append((args, tuple(sorted(kwargs.items()))))
-                return ("replaced", len(args))
+                return result_for(len(args))
 
             return new
 
@@ -180,7 +199,7 @@ def make_replacement(kind, rec):
     if kind in ("classmethod_fn", "staticmethod_fn"):
         def new(*args, **kwargs):
             rec.calls.append((args, tuple(sorted(kwargs.items()))))
-            return ("replaced", len(args))
+            return result_for(len(args))
 
         return {"new": (classmethod if kind == "classmethod_fn" else staticmethod)(new)}, None
     raise AssertionError(kind)
@@ -215,7 +234,7 @@ def check_inside_one(get, entered, rec, repl, target, viol, via):
         return 0
     cur = get()
     if entered is not None and repl in ("default", "new_callable", "explicit_mock"):
-        entered.return_value = ("replaced", "mock")
+        entered.return_value = result_for("mock")
 
     @A()
     def yielder(f, a, k):
@@ -285,7 +304,23 @@ def check_inside_one(get, entered, rec, repl, target, viol, via):
     return len(convs)
 
 
-def run_cell(target, repl, act, exit_path, comp, entry):
+def run_cell(target, repl, act, exit_path, comp, entry, result_mode="plain"):
+    RESULT_MODE[0] = result_mode
+    _RESULTS.clear()
+    try:
+        viol, n = _run_cell(target, repl, act, exit_path, comp, entry)
+        if result_mode == "lazyfuture":
+            for key, fut in _RESULTS.items():
+                if fut.is_computed():
+                    viol.append(("future-returned-by-the-replacement-was-computed-behind-the-callers-back", {"arity": key[1]}))
+                    break
+        return viol, n
+    finally:
+        RESULT_MODE[0] = "plain"
+        _RESULTS.clear()
+
+
+def _run_cell(target, repl, act, exit_path, comp, entry):
     import asynq
     from asynq import mock as amock
 
@@ -479,7 +514,9 @@ def run_unit(unit, progress):
     for i in range(a, b):
         progress(i)
         t, r, act, e, comp, entry = allc[i]
-        viol, nconv = run_cell(t, r, act, e, comp, entry)
+        rmode = ["plain", "constfuture", "plain", "lazyfuture"][i % 4]
+        viol, nconv = run_cell(t, r, act, e, comp, entry, rmode)
+        c["cells_result_" + rmode] = c.get("cells_result_" + rmode, 0) + 1
         res["evaluations"] += max(1, nconv)
         c["cells"] = c.get("cells", 0) + 1
         c["cells_target_" + t] = c.get("cells_target_" + t, 0) + 1
